@@ -258,20 +258,22 @@ pub fn serde_docs(args: &[String]) {
             .collect();
         let regs_txt = serde_json::to_string(&regs).unwrap();
         let hasher_txt = serde_json::to_string(&CtlBH::identity()).unwrap();
+        let seq = d["form"].as_str() == Some("seq");
         let mut parts: Vec<String> = vec![];
         for f in d["fields"].as_array().unwrap() {
-            match f.as_str().unwrap() {
-                "registers" => parts.push(format!("\"registers\":{}", regs_txt)),
-                "b" => parts.push(format!("\"b\":{}", b)),
-                "buildhasher" => parts.push(format!("\"buildhasher\":{}", hasher_txt)),
-                "unknown" => parts.push("\"surprise\":1".to_string()),
-                "bneg" => parts.push("\"b\":-1".to_string()),
-                "bstr" => parts.push("\"b\":\"8\"".to_string()),
-                "regstr" => parts.push("\"registers\":\"abc\"".to_string()),
+            let (name, value) = match f.as_str().unwrap() {
+                "registers" => ("registers", regs_txt.clone()),
+                "b" => ("b", format!("{}", b)),
+                "buildhasher" => ("buildhasher", hasher_txt.clone()),
+                "unknown" => ("surprise", "1".to_string()),
+                "bneg" => ("b", "-1".to_string()),
+                "bstr" => ("b", "\"8\"".to_string()),
+                "regstr" => ("registers", "\"abc\"".to_string()),
                 other => panic!("tool error: unknown field kind {}", other),
-            }
+            };
+            parts.push(if seq { value } else { format!("\"{}\":{}", name, value) });
         }
-        let txt = format!("{{{}}}", parts.join(","));
+        let txt = if seq { format!("[{}]", parts.join(",")) } else { format!("{{{}}}", parts.join(",")) };
         note_call(json!({"doc": d}));
         let mut rec = json!({"k":"p","s":"hllserde","tid":n,"doc":d});
         match guarded(|| serde_json::from_str::<H>(&txt)) {
